@@ -2120,8 +2120,12 @@ PPL::MIP_Problem::solve_mip(bool& have_incumbent_solution,
               << (Variable(non_int_dim) <= tmp_coeff1)
               << "." << std::endl;
 #endif // PPL_NOISY_SIMPLEX
-    solve_mip(have_incumbent_solution, incumbent_solution_value,
-              incumbent_solution_point, mip_aux, i_vars);
+    if (solve_mip(have_incumbent_solution, incumbent_solution_value,
+                  incumbent_solution_point, mip_aux, i_vars)
+        == UNBOUNDED_MIP_PROBLEM) {
+      // An integral point was found in an unbounded relaxation.
+      return UNBOUNDED_MIP_PROBLEM;
+    }
   }
   // TODO: change this when we will be able to remove constraints.
   mip.add_constraint(Variable(non_int_dim) >= tmp_coeff2);
@@ -2132,9 +2136,16 @@ PPL::MIP_Problem::solve_mip(bool& have_incumbent_solution,
             << (Variable(non_int_dim) >= tmp_coeff2)
             << "." << std::endl;
 #endif // PPL_NOISY_SIMPLEX
-  solve_mip(have_incumbent_solution, incumbent_solution_value,
-            incumbent_solution_point, mip, i_vars);
-  return have_incumbent_solution ? mip_status : UNFEASIBLE_MIP_PROBLEM;
+  if (solve_mip(have_incumbent_solution, incumbent_solution_value,
+                incumbent_solution_point, mip, i_vars)
+      == UNBOUNDED_MIP_PROBLEM) {
+    return UNBOUNDED_MIP_PROBLEM;
+  }
+  // Neither branch is unbounded: even if the relaxation of this node
+  // was unbounded, the problem is optimized as soon as there is
+  // an incumbent solution.
+  return have_incumbent_solution
+    ? OPTIMIZED_MIP_PROBLEM : UNFEASIBLE_MIP_PROBLEM;
 }
 
 bool
